@@ -25,7 +25,26 @@ def _read_input(handle) -> str:
 
 def _emit(text: str) -> None:
     """Write edited source, adding a line terminator only when it lacks one."""
-    sys.stdout.write(text if text.endswith("\n") else text + "\n")
+    payload = text if text.endswith("\n") else text + "\n"
+    stream = sys.stdout
+    raw = getattr(stream, "buffer", None)
+    if raw is None:
+        # Not backed by a byte stream (a StringIO put in place by a caller).
+        stream.write(payload)
+        return
+    # An unbuffered stdout (`python -u`, PYTHONUNBUFFERED) hands the bytes to a
+    # raw stream that may accept only a part of them - disk nearly full, file
+    # size limit, pipe - and say so; the text layer ignores that count, the rest
+    # would be lost and the exit status would still be 0.  Write the bytes
+    # ourselves until all of them are taken or the stream reports the error.
+    stream.flush()
+    data = memoryview(
+        payload.encode(stream.encoding or "utf-8", stream.errors or "strict")
+    )
+    while data:
+        written = raw.write(data)
+        data = data[len(data) if written is None else written :]
+    raw.flush()
 
 
 def main(args=None) -> int:
